@@ -1,5 +1,132 @@
-"""Sensitivity self-test of the rules (thorough tier): placeholder filled in later."""
+"""Sensitivity self-test of the rules (thorough tier).
+
+For each seeded edit of sa/mutants.py that belongs to the property: copy <root>/supvisors (and docs/) to a scratch
+directory created with tempfile (outside /repo and /verif, removed in a finally), apply the text edit, verify that the
+edited module still compiles (compile() - nothing is run), run the property's rules on the scratch tree and compare the
+reported finding keys with those of the unedited tree. An edit must make a NEW finding appear whose key contains the
+expected substring; a behaviour-preserving variant must add nothing. Outcomes go to the evidence; they never print a
+VIOLATION line and never change the exit code (an undetected edit is printed as SELFTEST-MISS)."""
+import os
+import pathlib
+import shutil
+import sys
+import tempfile
+from concurrent.futures import ProcessPoolExecutor
+
+from . import mutants
+
+
+def _keys(prop, root):
+    from .main import analyse
+    R = analyse(prop, root)
+    return sorted(f['key'] for f in R.findings)
+
+
+def _one(args):
+    prop, root, idx, f, old, new, expect, base = args
+    src = pathlib.Path(root) / 'supvisors' / f
+    try:
+        text = src.read_text()
+    except OSError:
+        return idx, 'skipped', 'file %s absent' % f, []
+    if text.count(old) < 1:
+        return idx, 'skipped', 'anchor text absent from the current tree', []
+    tmp = tempfile.mkdtemp(prefix='verif-selftest.')
+    try:
+        shutil.copytree(pathlib.Path(root) / 'supvisors', tmp + '/supvisors',
+                        ignore=shutil.ignore_patterns('__pycache__', 'tests', 'test', 'ui'))
+        docs = pathlib.Path(root) / 'docs' / 'configuration.rst'
+        if docs.exists():
+            os.makedirs(tmp + '/docs')
+            shutil.copy(docs, tmp + '/docs/configuration.rst')
+        edited = text.replace(old, new, 1)
+        if edited == text:
+            return idx, 'skipped', 'edit is the identity', []
+        try:
+            compile(edited, f, 'exec')
+        except SyntaxError as exc:
+            return idx, 'skipped', 'edited module does not compile: %s' % exc, []
+        (pathlib.Path(tmp) / 'supvisors' / f).write_text(edited)
+        try:
+            keys = _keys(prop, tmp)
+        except Exception as exc:                                # AnalysisError included: the edit was noticed
+            if expect is None:
+                return idx, 'neutral-analysis-error', str(exc)[:200], []
+            return idx, 'analysis-error', str(exc)[:200], []
+        new_keys = [k for k in keys if k not in base]
+        if expect is None:
+            return idx, ('neutral-silent' if not new_keys else 'neutral-FIRED'), '', new_keys[:3]
+        hit = [k for k in new_keys if expect in k]
+        if hit:
+            return idx, 'detected', '', hit[:2]
+        return idx, ('detected-other' if new_keys else 'MISSED'), '', new_keys[:3]
+    finally:
+        shutil.rmtree(tmp, ignore_errors=True)
+
+
+def run_corpus(prop, root='/repo', jobs=None):
+    items = [(i, x) for i, x in enumerate(mutants.M) if x[0] == prop]
+    if not items:
+        return {'mutants_total': 0}
+    base = _keys(prop, root)
+    args = [(prop, root, i, f, old, new, expect, base) for i, (p, f, old, new, expect) in items]
+    results = {}
+    with ProcessPoolExecutor(max_workers=jobs or min(16, os.cpu_count() or 4)) as ex:
+        for idx, status, info, keys in ex.map(_one, args):
+            results[idx] = (status, info, keys)
+    summary = {'mutants_total': 0, 'detected': 0, 'detected_by_another_rule': 0, 'analysis_error': 0, 'missed': [],
+               'skipped': [], 'neutral_total': 0, 'neutral_silent': 0, 'neutral_fired': [], 'samples': []}
+    for i, (p, f, old, new, expect) in items:
+        status, info, keys = results[i]
+        label = '%s: %r -> %r' % (f, old.strip().splitlines()[0][:60], new.strip().splitlines()[0][:60] if new.strip() else '<deleted>')
+        if status == 'skipped':
+            summary['skipped'].append({'edit': label, 'why': info})
+            continue
+        if expect is None:
+            summary['neutral_total'] += 1
+            if status == 'neutral-silent':
+                summary['neutral_silent'] += 1
+            else:
+                summary['neutral_fired'].append({'edit': label, 'status': status, 'keys': keys, 'info': info})
+            continue
+        summary['mutants_total'] += 1
+        if status == 'detected':
+            summary['detected'] += 1
+            if len(summary['samples']) < 6:
+                summary['samples'].append({'edit': label, 'reported': keys[0]})
+        elif status == 'detected-other':
+            summary['detected_by_another_rule'] += 1
+            summary['samples'].append({'edit': label, 'expected': expect, 'reported_instead': keys})
+        elif status == 'analysis-error':
+            summary['analysis_error'] += 1
+            summary['samples'].append({'edit': label, 'analysis_error': info})
+        else:
+            summary['missed'].append({'edit': label, 'expected': expect})
+    return summary
 
 
 def run(prop, R):
-    return
+    """called by the driver for --tier thorough: adds the self-test outcome to the evidence of the run."""
+    s = run_corpus(prop, R.root)
+    R.extra['selftest'] = s
+    for mm in s.get('missed', []):
+        print('SELFTEST-MISS property=%s %s (expected a finding containing %s)' % (prop, mm['edit'], mm['expected']))
+    for nf in s.get('neutral_fired', []):
+        print('SELFTEST-NEUTRAL-FIRED property=%s %s %s' % (prop, nf['edit'], nf['keys']))
+    print('%s self-test: %d/%d seeded edits detected (%d by another rule, %d as analysis error), %d/%d neutral variants '
+          'silent, %d skipped' % (prop, s.get('detected', 0) + s.get('detected_by_another_rule', 0) + s.get('analysis_error', 0),
+                                 s.get('mutants_total', 0), s.get('detected_by_another_rule', 0), s.get('analysis_error', 0),
+                                 s.get('neutral_silent', 0), s.get('neutral_total', 0), len(s.get('skipped', []))))
+
+
+if __name__ == '__main__':
+    props = sys.argv[1:] or sorted({x[0] for x in mutants.M})
+    for p in props:
+        s = run_corpus(p)
+        print(p, {k: (v if not isinstance(v, list) else len(v)) for k, v in s.items() if k != 'samples'})
+        for k in ('missed', 'neutral_fired', 'skipped'):
+            for x in s.get(k, []):
+                print('   ', k.upper(), x)
+        for x in s.get('samples', []):
+            if 'reported_instead' in x or 'analysis_error' in x:
+                print('    NOTE', x)
